@@ -644,6 +644,22 @@ theorem unfixed_mounts_set_then_remove :
       = .ok ([{ destination := str "/a", source := str "/new" }], []) := by
   constructor <;> rfl
 
+/-- docs/fixes/C13-1.patch is conservative: the repaired env / device / mount loops compute what
+    the code before the repair computes on the same entries with the removals moved to the
+    front (stably) — so nothing changes for an adjustment that already lists removals first. -/
+theorem C13_repair_conservative (s : Spec) (ext : Externals) (E : List KeyValue) (D : List LinuxDevice)
+    (M : List Api.Mount) :
+    adjustEnv s E = adjustEnvUnfixed s (removalsFirst KeyValue.key E) ∧
+    adjustDevices s D = adjustDevicesUnfixed s (removalsFirst LinuxDevice.path D) ∧
+    adjustMounts ext s M = adjustMountsUnfixed ext s (removalsFirst Api.Mount.destination M) := by
+  refine ⟨?_, ?_, ?_⟩
+  · unfold adjustEnv adjustEnvUnfixed; rw [Env.apply_eq_unfixed]
+  · unfold adjustDevices adjustDevicesUnfixed; rw [Devices.apply_eq_unfixed]
+  · unfold adjustMounts adjustMountsUnfixed; rw [Mounts.apply_eq_unfixed]
+
+example : removalsFirst KeyValue.key [⟨str "-FOO", []⟩, ⟨str "FOO", str "v"⟩] =
+    [⟨str "-FOO", []⟩, ⟨str "FOO", str "v"⟩] := by decide
+
 /-- Finding (DESIGN §6 #10a): a requested memory limit of 0 is not applied — for every spec. -/
 theorem memory_limit_zero_ignored (m : Oci.Memory) (r : LinuxMemory) (h : r.limit = some 0) :
     Resources.applyMemory m r = m := by
